@@ -45,8 +45,23 @@ use lightning_signer::node::Node;
 use lightning_signer::policy::filter::{FilterRule, PolicyFilter};
 use lightning_signer::signer::derive::KeyDerivationStyle;
 use lightning_signer::tx::tx::{CommitmentInfo2, HTLCInfo2};
+use lightning_signer::bitcoin::psbt::Psbt;
+use lightning_signer::bitcoin::BlockHash;
+use lightning_signer::lightning::chain::transaction::OutPoint as LdkOutPoint;
+use lightning_signer::lightning::ln::chan_utils::{
+    ChannelTransactionParameters, CommitmentTransaction, CounterpartyChannelTransactionParameters,
+    HTLCOutputInCommitment, TxCreationKeys,
+};
+use lightning_signer::lightning::ln::channel_keys::{DelayedPaymentKey, HtlcKey, RevocationKey};
+use lightning_signer::lightning::types::features::ChannelTypeFeatures;
 use serde_json::json;
 use vharness::*;
+use vls_protocol::model::{self as wmodel, PubKey as WirePubKey};
+use vls_protocol::msgs::{self, Message as WireMessage, SerBolt};
+use vls_protocol::psbt::PsbtWrapper;
+use vls_protocol::serde_bolt::{Array, WithSize};
+use vls_protocol_signer::approver::PositiveApprover;
+use vls_protocol_signer::handler::{ChannelHandler, Handler, InitHandler, RootHandler};
 
 const INITIAL: u64 = (1 << 48) - 1;
 
@@ -64,6 +79,8 @@ struct H {
     value: u64,
     hash: [u8; 32],
     cltv: u32,
+    /// the wire amount is value * 1000 + extra millisatoshi (extra < 1000)
+    extra: u64,
 }
 
 #[derive(Clone, Debug)]
@@ -200,7 +217,7 @@ fn gen_case(seed: u64, idx: usize, tier: &str) -> Case {
             _ => lim + rng.below(50_000),
         };
         let hash = if rng.chance(1, 3) { *rng.pick(&pool) } else { rng.bytes32() };
-        H { value, hash, cltv: *rng.pick(&cltvs) }
+        H { value, hash, cltv: *rng.pick(&cltvs), extra: *rng.pick(&[0u64, 0, 1, 500, 999]) }
     };
     let mut offered: Vec<H> = (0..n_off).map(|_| mk(&mut rng, lim_off)).collect();
     let mut received: Vec<H> = (0..n_rec).map(|_| mk(&mut rng, lim_rec)).collect();
@@ -482,8 +499,25 @@ fn derive_keys(secp: &Secp256k1<All>, c: &Case, holder: &ChannelPublicKeys) -> K
     Keys { revocation, delayed, b_htlc, c_htlc, obscure, pcp }
 }
 
-fn htlc_coq(h: &H) -> String {
-    format!("(mkHtlc {} {} {})", h.value, hx(&h.hash), h.cltv)
+/// the content as the wire messages carry it: (side, amount_msat, payment_hash, cltv_expiry) with
+/// side 1 = REMOTE (offered by the counterparty, whose commitment this is), 0 = LOCAL; the two
+/// lists are interleaved, each keeping its order
+fn wire_htlcs(c: &Case) -> Vec<(u8, u64, [u8; 32], u32)> {
+    let mut out = vec![];
+    let (mut i, mut j) = (0, 0);
+    while i < c.offered.len() || j < c.received.len() {
+        if i < c.offered.len() {
+            let h = &c.offered[i];
+            out.push((1u8, h.value * 1000 + h.extra, h.hash, h.cltv));
+            i += 1;
+        }
+        if j < c.received.len() {
+            let h = &c.received[j];
+            out.push((0u8, h.value * 1000 + h.extra, h.hash, h.cltv));
+            j += 1;
+        }
+    }
+    out
 }
 
 fn gen_coq(secp: &Secp256k1<All>, c: &Case, holder: &ChannelPublicKeys, k: &Keys) -> (String, String, String) {
@@ -508,20 +542,25 @@ fn gen_coq(secp: &Secp256k1<All>, c: &Case, holder: &ChannelPublicKeys, k: &Keys
         hx(&k.c_htlc.serialize()),
         k.obscure
     );
+    // the model gets the wire content and applies its own reading of it (Commitment.wire_content)
     let content = format!(
-        "(mkContent {} {} {} {} {} {})",
+        "(wire_content {} {} {} {} {})",
         c.n,
         c.feerate,
         c.to_holder,
         c.to_cp,
-        coq_list(&c.offered.iter().map(htlc_coq).collect::<Vec<_>>()),
-        coq_list(&c.received.iter().map(htlc_coq).collect::<Vec<_>>())
+        coq_list(
+            &wire_htlcs(c)
+                .iter()
+                .map(|(side, msat, hash, cltv)| format!("(mkWHtlc {} {} {} {})", side, msat, hx(hash), cltv))
+                .collect::<Vec<_>>()
+        )
     );
     (setup, keys, content)
 }
 
 fn case_json(c: &Case) -> serde_json::Value {
-    let hs = |v: &Vec<H>| v.iter().map(|h| json!([h.value, hexs(&h.hash), h.cltv])).collect::<Vec<_>>();
+    let hs = |v: &Vec<H>| v.iter().map(|h| json!([h.value, hexs(&h.hash), h.cltv, h.value * 1000 + h.extra])).collect::<Vec<_>>();
     json!({
         "idx": c.idx, "kind": c.kind, "ctype": ctype_coq(c.ctype), "outbound": c.outbound, "value": c.value,
         "funding": format!("{}:{}", hexs(&c.txid), c.vout), "holder_delay": c.hdelay, "n": c.n,
@@ -1193,6 +1232,176 @@ fn phase2(live: &Live, c: &Case, pcp: &PublicKey) -> R<(Signature, Vec<Signature
     })
 }
 
+// ------------------------------------------------------------------ handler level (wire messages)
+
+fn make_handler(node: &Arc<Node>, proto: u32, peer_id: [u8; 33], dbid: u64) -> ChannelHandler {
+    let mut init = InitHandler::new(0, node.clone(), Arc::new(PositiveApprover()), proto);
+    let m = msgs::HsmdInit {
+        key_version: wmodel::Bip32KeyVersion { pubkey_version: 0, privkey_version: 0 },
+        chain_params: BlockHash::all_zeros(),
+        encryption_key: None,
+        dev_privkey: None,
+        dev_bip32_seed: None,
+        dev_channel_secrets: None,
+        dev_channel_secrets_shaseed: None,
+        hsm_wire_min_version: 2,
+        hsm_wire_max_version: proto,
+    };
+    init.handle(WireMessage::HsmdInit(m)).expect("init");
+    let root: RootHandler = init.into();
+    root.for_new_client(1, WirePubKey(peer_id), dbid)
+}
+
+/// The BOLT-3 commitment transaction of the wire content, built with LDK directly from the
+/// harness's own reading of the fields (no builder of the signer): an HTLC of `amount_msat` is an
+/// output of amount_msat / 1000 satoshi (rounded down); side 1 (REMOTE) is offered by the
+/// broadcaster of this - the counterparty's - commitment, side 0 (LOCAL) is received by it.
+fn expected_bolt3_tx(c: &Case, holder: &ChannelPublicKeys, k: &Keys, secp: &Secp256k1<All>) -> Option<Vec<u8>> {
+    let mut features = ChannelTypeFeatures::only_static_remote_key();
+    match c.ctype {
+        2 => features.set_anchors_nonzero_fee_htlc_tx_optional(),
+        3 => features.set_anchors_zero_fee_htlc_tx_optional(),
+        _ => {}
+    }
+    let cp = cp_points(secp, c);
+    let params = ChannelTransactionParameters {
+        holder_pubkeys: holder.clone(),
+        holder_selected_contest_delay: c.hdelay,
+        is_outbound_from_holder: c.outbound,
+        counterparty_parameters: Some(CounterpartyChannelTransactionParameters {
+            pubkeys: cp.clone(),
+            selected_contest_delay: c.cdelay,
+        }),
+        funding_outpoint: Some(LdkOutPoint { txid: Txid::from_byte_array(c.txid), index: u16::try_from(c.vout).ok()? }),
+        channel_type_features: features,
+    };
+    let keys = TxCreationKeys {
+        per_commitment_point: k.pcp,
+        revocation_key: RevocationKey(k.revocation),
+        broadcaster_htlc_key: HtlcKey(k.b_htlc),
+        countersignatory_htlc_key: HtlcKey(k.c_htlc),
+        broadcaster_delayed_payment_key: DelayedPaymentKey(k.delayed),
+    };
+    let mut htlcs: Vec<(HTLCOutputInCommitment, ())> = wire_htlcs(c)
+        .iter()
+        .map(|(side, msat, hash, cltv)| {
+            (
+                HTLCOutputInCommitment {
+                    offered: *side == 1,
+                    amount_msat: *msat,
+                    cltv_expiry: *cltv,
+                    payment_hash: PaymentHash(*hash),
+                    transaction_output_index: None,
+                },
+                (),
+            )
+        })
+        .collect();
+    let r = catch_unwind(AssertUnwindSafe(|| {
+        let directed = params.as_counterparty_broadcastable();
+        let ct = CommitmentTransaction::new_with_auxiliary_htlc_data(
+            INITIAL - c.n,
+            c.to_cp,
+            c.to_holder,
+            cp.funding_pubkey,
+            holder.funding_pubkey,
+            keys,
+            c.feerate,
+            &mut htlcs,
+            &directed,
+        );
+        serialize(&ct.trust().built_transaction().transaction)
+    }));
+    r.ok()
+}
+
+fn wire_htlc_array(c: &Case) -> Array<wmodel::Htlc> {
+    Array(
+        wire_htlcs(c)
+            .iter()
+            .map(|(side, msat, hash, cltv)| wmodel::Htlc {
+                side: *side,
+                amount: *msat,
+                payment_hash: wmodel::Sha256(*hash),
+                ctlv_expiry: *cltv,
+            })
+            .collect(),
+    )
+}
+
+fn sig_of(b: &wmodel::BitcoinSignature) -> Option<Signature> {
+    Signature::from_compact(&b.signature.0).ok()
+}
+
+/// SignRemoteCommitmentTx2 over the wire: encode, decode, handle, encode the reply, decode it
+fn wire_phase2(h: &ChannelHandler, c: &Case, pcp: &PublicKey) -> R<(Signature, Vec<Signature>)> {
+    let m = msgs::SignRemoteCommitmentTx2 {
+        remote_per_commitment_point: WirePubKey(pcp.serialize()),
+        commitment_number: c.n,
+        feerate: c.feerate,
+        to_local_value_sat: c.to_holder,
+        to_remote_value_sat: c.to_cp,
+        htlcs: wire_htlc_array(c),
+    };
+    let msg = match msgs::from_vec(m.as_vec()) {
+        Ok(x) => x,
+        Err(_) => return R::Err("request does not survive the wire".into()),
+    };
+    match catch_unwind(AssertUnwindSafe(|| h.handle(msg))) {
+        Err(_) => R::Panic,
+        Ok(Err(e)) => R::Err(format!("{:?}", e)),
+        Ok(Ok(reply)) => match msgs::from_vec(reply.as_vec()) {
+            Ok(WireMessage::SignCommitmentTxWithHtlcsReply(r)) => {
+                let sig = sig_of(&r.signature);
+                let hs: Option<Vec<Signature>> = r.htlc_signatures.iter().map(sig_of).collect();
+                match (sig, hs) {
+                    (Some(s), Some(hs)) => R::Ok((s, hs)),
+                    _ => R::Err("reply carries a malformed signature".into()),
+                }
+            }
+            _ => R::Err("unexpected reply".into()),
+        },
+    }
+}
+
+/// SignRemoteCommitmentTx (raw) over the wire, with the witness scripts in the PSBT outputs
+fn wire_phase1(h: &ChannelHandler, c: &Case, pcp: &PublicKey, cp_funding: &PublicKey, tx: &Transaction, ws: &[Vec<u8>]) -> R<Signature> {
+    let mut psbt = match Psbt::from_unsigned_tx(tx.clone()) {
+        Ok(p) => p,
+        Err(_) => return R::Err("no psbt".into()),
+    };
+    for (i, w) in ws.iter().enumerate() {
+        if !w.is_empty() && i < psbt.outputs.len() {
+            psbt.outputs[i].witness_script = Some(ScriptBuf::from(w.clone()));
+        }
+    }
+    let m = msgs::SignRemoteCommitmentTx {
+        tx: WithSize(tx.clone()),
+        psbt: WithSize(PsbtWrapper { inner: psbt }),
+        remote_funding_key: WirePubKey(cp_funding.serialize()),
+        remote_per_commitment_point: WirePubKey(pcp.serialize()),
+        option_static_remotekey: c.ctype != 0,
+        commitment_number: c.n,
+        htlcs: wire_htlc_array(c),
+        feerate: c.feerate,
+    };
+    let msg = match msgs::from_vec(m.as_vec()) {
+        Ok(x) => x,
+        Err(_) => return R::Err("request does not survive the wire".into()),
+    };
+    match catch_unwind(AssertUnwindSafe(|| h.handle(msg))) {
+        Err(_) => R::Panic,
+        Ok(Err(e)) => R::Err(format!("{:?}", e)),
+        Ok(Ok(reply)) => match msgs::from_vec(reply.as_vec()) {
+            Ok(WireMessage::SignTxReply(r)) => match sig_of(&r.signature) {
+                Some(s) => R::Ok(s),
+                None => R::Err("reply carries a malformed signature".into()),
+            },
+            _ => R::Err("unexpected reply".into()),
+        },
+    }
+}
+
 fn verify(secp: &Secp256k1<All>, tx: &Transaction, idx: usize, script: &Script, amount: u64, ty: EcdsaSighashType, sig: &Signature, pk: &PublicKey) -> bool {
     let h = match SighashCache::new(tx).p2wsh_signature_hash(idx, script, Amount::from_sat(amount), ty) {
         Ok(h) => h,
@@ -1510,6 +1719,69 @@ fn run(args: &Args) {
                 *dist.entry("phase2-panic".into()).or_insert(0) += 1;
             }
         }
+        // handler level: the same content as wire messages whose HTLC amounts are in msat (whole and
+        // fractional satoshis), through as_vec -> from_vec -> ChannelHandler::handle at protocol 4/5/6
+        let mut wire_checked = false;
+        if let R::Ok((sig2, hsigs)) = &r2 {
+            let proto = [4u32, 5, 6][idx % 3];
+            let peer = pk_of(&secp, &[9u8; 32]).serialize();
+            match expected_bolt3_tx(&c, &a.holder, &k, &secp) {
+                None => viol.push(json!({"what": "harness: LDK could not build the BOLT-3 transaction of the wire content"})),
+                Some(exp) => {
+                    if exp != m.tx {
+                        viol.push(json!({"what": "the model's canonical transaction of the wire content (Commitment.wire_content) differs from the BOLT-3 transaction LDK builds from the harness's reading of the wire fields",
+                                         "model_tx": hexs(&m.tx), "expected_tx": hexs(&exp)}));
+                    }
+                    let etx: Transaction = deserialize(&exp).expect("expected tx");
+                    let wire_json = wire_htlcs(&c).iter().map(|(s, a, h, e)| json!([s, a, hexs(h), e])).collect::<Vec<_>>();
+                    if let Some(lw) = make_live(&secp, &c) {
+                        let h = make_handler(&lw.node, proto, peer, 1);
+                        match wire_phase2(&h, &c, &k.pcp) {
+                            R::Ok((ws2, whs)) => {
+                                wire_checked = true;
+                                sig_checks += 1;
+                                if !verify(&secp, &etx, 0, &fs, c.value, EcdsaSighashType::All, &ws2, &holder_funding) {
+                                    viol.push(json!({"what": "SignRemoteCommitmentTx2 (wire): the returned signature does not verify on the BOLT-3 commitment transaction of the requested content (HTLC outputs = amount_msat / 1000, rounded down)",
+                                                     "protocol": proto, "wire_htlcs": wire_json, "expected_tx": hexs(&exp)}));
+                                }
+                                if ws2 != *sig2 || whs != *hsigs {
+                                    viol.push(json!({"what": "SignRemoteCommitmentTx2 (wire) and Channel::sign_counterparty_commitment_tx_phase2 on the same content return different signatures",
+                                                     "protocol": proto, "wire_htlcs": wire_json}));
+                                }
+                                // the raw request on the canonical transaction, on a node of its own
+                                if let Some(l1) = make_live(&secp, &c) {
+                                    let h1 = make_handler(&l1.node, proto, peer, 1);
+                                    match wire_phase1(&h1, &c, &k.pcp, &cp_points(&secp, &c).funding_pubkey, &etx, &m.ws) {
+                                        R::Ok(ws1) => {
+                                            sig_checks += 1;
+                                            if ws1 != ws2 || !verify(&secp, &etx, 0, &fs, c.value, EcdsaSighashType::All, &ws1, &holder_funding) {
+                                                viol.push(json!({"what": "SignRemoteCommitmentTx (wire, raw) returns another signature than SignRemoteCommitmentTx2 for the canonical transaction",
+                                                                 "protocol": proto, "wire_htlcs": wire_json}));
+                                            }
+                                        }
+                                        R::Err(msg) =>
+                                            if c.ctype != 2 {
+                                                viol.push(json!({"what": "SignRemoteCommitmentTx (wire, raw) refuses the byte-for-byte canonical BOLT-3 transaction of a content that SignRemoteCommitmentTx2 signs",
+                                                                 "protocol": proto, "status": msg, "wire_htlcs": wire_json, "expected_tx": hexs(&exp)}))
+                                            },
+                                        R::Panic => viol.push(json!({"what": "SignRemoteCommitmentTx (wire) panics", "panic": last_panic()})),
+                                    }
+                                }
+                            }
+                            R::Err(msg) => viol.push(json!({"what": "SignRemoteCommitmentTx2 (wire) refuses a content that Channel::sign_counterparty_commitment_tx_phase2 signs",
+                                                            "protocol": proto, "status": msg, "wire_htlcs": wire_json})),
+                            R::Panic => viol.push(json!({"what": "SignRemoteCommitmentTx2 (wire) panics", "panic": last_panic()})),
+                        }
+                    }
+                }
+            }
+            if wire_checked {
+                *dist.entry(format!("wire-checked:protocol-{}", proto)).or_insert(0) += 1;
+                if c.offered.iter().chain(c.received.iter()).any(|h| h.extra != 0) {
+                    *dist.entry("wire-checked:fractional-satoshi-htlc".into()).or_insert(0) += 1;
+                }
+            }
+        }
         // restart: the signer restored from the store must give the same answers.  The channel was
         // persisted by the accepted phase-2 request; a retry of the same commitment is admitted
         // by the state it stored.
@@ -1626,7 +1898,7 @@ fn run(args: &Args) {
                 "validator_accepts": acc0,
                 "builder_agrees": builder_agrees,
                 "n_outputs": mtx.output.len(), "n_htlc_txs": m.htx.len(), "mutants": n_case_mutants,
-                "digest_checked": digest_checked, "restarted": restarted,
+                "digest_checked": digest_checked, "restarted": restarted, "wire_checked": wire_checked,
                 "model_tx": hexs(&m.tx),
                 "violations": viol,
                 "panics": panics.iter().take(3).collect::<Vec<_>>(), "n_panics": panics.len(),
